@@ -10,6 +10,8 @@ case = {
               | ["flush"] | ["reply_close"] | ["eof"] | ["reset"] | ["fail_writes"] | ["sleep", seconds]
               | ["stall"] | ["unstall"]   (the peer stops / resumes taking what the server writes: transport back-pressure) ],
   "h2_window": n   (h2 only: the client's stream and connection windows are n bytes, so that flow control never holds the server back),
+  "h2_auto_window": true | "connection" | false   (h2 only: received data is credited back to stream and connection / to the connection only:
+                    the stream's window stays used up / not at all; default true),
   "seg": ["one"] | ["bytes"] | ["cuts", [offsets into each flushed byte string]] | ["k", n, seed],
   "before": n   (h1 only: n ordinary keep-alive GETs, each answered 200 by an http application, on the same connection ahead of the handshake),
 }
@@ -126,7 +128,7 @@ def run_session(case: dict) -> dict:
             await io.send(ws.h1_request(headers, method=case.get("method", "GET"), version=case.get("version", "1.1")))
             await absorb()
         else:
-            h2c = C.H2Client(validate_outbound=False, initial_window=case.get("h2_window"))
+            h2c = C.H2Client(validate_outbound=False, initial_window=case.get("h2_window"), auto_window=case.get("h2_auto_window", True))
             box["h2"] = h2c
             if case.get("h2_window"):
                 h2c.conn.increment_flow_control_window(int(case["h2_window"]))
